@@ -101,11 +101,23 @@ def rule_z1_z2(chk: Check, ci):
 def rule_z3(chk: Check, ci, fn) -> None:
     chk.rule("Z3", "relay: non-UTF-8 text bodies are re-encoded with their declared charset (or bytes are kept); status and meta pass through; otherwise the upstream response object itself is returned")
     fi = ci.methods["_handle_async"]
-    g = build_cfg(chk.proj, fi)
+    from ..cfg import Builder, inline_self_methods
+    from ..flow import _bindings, call_returns
+
+    g = Builder(chk.proj, inline_self_methods, 3).build(fi)  # the relay step may live in a helper
     resp_var = dotted(fn.ast.targets[0]) if isinstance(fn.ast, ast.Assign) else None
     if resp_var is None:
         chk.finding("Z3", fi.key, "response-unbound", "the upstream response is not bound to a name", fn.where())
         return
+    fn = next((x for x in g.nodes if x.ast is fn.ast and not x.stack), fn)
+    # helper parameters bound to the upstream response are further names for it
+    names = {resp_var}
+    for _ in range(3):
+        for x in g.nodes:
+            if x.kind == "call_enter":
+                for p_, a_ in _bindings(x).items():
+                    if dotted(a_) in names:
+                        names.add(p_)
     cases = [
         ("text, charset utf-8", StrV("str"), lit("utf-8"), "identity"),
         ("text, charset UTF-8 (upper case)", StrV("str"), lit("UTF-8"), "identity"),
@@ -116,10 +128,12 @@ def rule_z3(chk: Check, ci, fn) -> None:
     ]
     for name, body, charset, want in cases:
         interp = Interp(chk.proj, fi)
-        interp.oracle = {f"{resp_var}.body": body, f"{resp_var}.charset": charset, f"{resp_var}.status": IntV(20, 20), f"{resp_var}.meta": StrV("str"), "request.path": StrV("str", prefix="/"), "self.strip_prefix": BoolV(False), "request.query": lit("")}
+        interp.oracle = {"request.path": StrV("str", prefix="/"), "self.strip_prefix": BoolV(False), "request.query": lit("")}
+        for nm in names:
+            interp.oracle.update({f"{nm}.body": body, f"{nm}.charset": charset, f"{nm}.status": IntV(20, 20), f"{nm}.meta": StrV("str")})
 
         def oracle(c, _b=body):
-            if dotted(c.func) == "isinstance" and len(c.args) == 2 and dotted(c.args[0]) == f"{resp_var}.body":
+            if dotted(c.func) == "isinstance" and len(c.args) == 2 and dotted(c.args[0]) in {f"{nm}.body" for nm in names}:
                 t = dotted(c.args[1])
                 if isinstance(_b, NoneV):
                     return BoolV(False)
@@ -139,20 +153,30 @@ def rule_z3(chk: Check, ci, fn) -> None:
             if not any(n.id == fn.id for n, _l in path):
                 continue
             rets = [node for node, _v, _s in recs]
-            r = rets[-1].ast.value if rets else None
+            # the deciding return: the innermost one when the outer returns an inlined helper call
+            eff = None
+            for rn in reversed(rets):
+                v = rn.ast.value
+                while isinstance(v, ast.Await):
+                    v = v.value
+                if isinstance(v, ast.Call) and call_returns(g, v) is not None:
+                    continue
+                eff = rn
+                break
+            r = eff.ast.value if eff is not None else None
             if r is None:
                 shapes.add("none")
-            elif dotted(r) == resp_var:
+            elif dotted(r) in names:
                 shapes.add("identity")
             elif isinstance(r, ast.Call) and (dotted(r.func) or "").split(".")[-1] == "GeminiResponse":
                 b = kwarg(r, "body")
                 stt, mt = kwarg(r, "status"), kwarg(r, "meta")
-                good = dotted(stt) == f"{resp_var}.status" and dotted(mt) == f"{resp_var}.meta"
-                if good and isinstance(b, ast.Call) and method_call(b) and method_call(b)[1] == "encode" and dotted(method_call(b)[0]) == f"{resp_var}.body" and len(b.args) == 1:
+                good = dotted(stt) in {f"{nm}.status" for nm in names} and dotted(mt) in {f"{nm}.meta" for nm in names}
+                if good and isinstance(b, ast.Call) and method_call(b) and method_call(b)[1] == "encode" and dotted(method_call(b)[0]) in {f"{nm}.body" for nm in names} and len(b.args) == 1:
                     # codec argument derives from the response's declared charset
                     d = Defs(g)
-                    ls = origins(d, rets[-1], b.args[0]) if isinstance(b.args[0], ast.Name) else [(rets[-1], b.args[0])]
-                    if all(not isinstance(le, _Sel) and f"{resp_var}.charset" in norm(le) for _, le in ls):
+                    ls = origins(d, eff, b.args[0]) if isinstance(b.args[0], ast.Name) else [(eff, b.args[0])]
+                    if all(not isinstance(le, _Sel) and any(f"{nm}.charset" in norm(le) for nm in names) for _, le in ls):
                         shapes.add("reencode")
                     else:
                         shapes.add("reencode-other-codec")
